@@ -50,6 +50,7 @@ type gatherCfg struct {
 	UDPMuxSrflx  string   `json:"udp_mux_srflx,omitempty"`
 	Rewrite      []AddressRewriteRule `json:"rewrite,omitempty"`
 	Depth        int      `json:"depth,omitempty"`
+	CloseErr     bool     `json:"close_err,omitempty"` // sockets and relayed connections report an error from Close (after closing)
 	Start        bool     `json:"start,omitempty"` // StartDial before the first event (needed for the Failed state)
 }
 
@@ -64,14 +65,16 @@ type gResource struct {
 
 type gSock struct {
 	*vsock
-	res *gResource
-	fn  *fakeNet
+	res      *gResource
+	fn       *fakeNet
+	closeErr error // fault: Close releases the socket but reports an error
 }
 
 func (s *gSock) Close() error {
 	s.fn.noteClose(s.res)
+	_ = s.vsock.Close()
 
-	return s.vsock.Close()
+	return s.closeErr
 }
 func (s *gSock) RemoteAddr() net.Addr                   { return nil }
 func (s *gSock) SetReadBuffer(int) error                { return nil }
@@ -172,7 +175,12 @@ func (f *fakeNet) listen(role, network string, laddr *net.UDPAddr) (transport.UD
 		kind = "udp-turn"
 	}
 
-	return &gSock{vsock: vs, res: f.newRes(kind, fmt.Sprintf("%s %s", network, net.JoinHostPort(ip.String(), strconv.Itoa(laddr.Port)))), fn: f}, nil
+	gs := &gSock{vsock: vs, res: f.newRes(kind, fmt.Sprintf("%s %s", network, net.JoinHostPort(ip.String(), strconv.Itoa(laddr.Port)))), fn: f}
+	if f.gw.cfg.CloseErr {
+		gs.closeErr = errors.New("injected: socket Close failed") //nolint:err113
+	}
+
+	return gs, nil
 }
 
 func (f *fakeNet) ListenPacket(network, address string) (net.PacketConn, error) {
@@ -234,7 +242,12 @@ func (t *fakeTurn) Allocate() (net.PacketConn, error) {
 	name := fmt.Sprintf("relay%d", t.idx)
 	vs := t.gw.newSock(name, "198.51.100.7", 50000+t.idx+100*fn.gen, "")
 
-	return &gSock{vsock: vs, res: fn.newRes("relay", t.server), fn: fn}, nil
+	gs := &gSock{vsock: vs, res: fn.newRes("relay", t.server), fn: fn}
+	if t.gw.cfg.CloseErr {
+		gs.closeErr = errors.New("injected: relayed connection Close failed (refresh could not be sent)") //nolint:err113
+	}
+
+	return gs, nil
 }
 func (t *fakeTurn) Close() { t.gw.fn.noteClose(t.res) }
 
@@ -503,7 +516,7 @@ func (gw *gatherWorld) openResources(gen int) []string {
 
 func (gw *gatherWorld) Close() {
 	if !gw.closed {
-		if err := gw.a.Close(); err != nil {
+		if err := gw.a.Close(); err != nil && !gw.cfg.CloseErr {
 			gw.problem("", "Close returned %v", err)
 		}
 		gw.closed = true
